@@ -228,3 +228,108 @@ func verifCompileCall(table funcs.FunctionTable, name string, n, place int, dott
 	return (&FHIRPathVisitor{Functions: table}).Visit(verifPlaced(call, place)).(*VisitResult)
 }
 
+// verifTypeExpr is "x is|as A" or "x is|as A.B[.C]" (typeSpecifier : qualifiedIdentifier : identifier ('.' identifier)*).
+func verifTypeExpr(x grammar.IExpressionContext, op string, names ...string) grammar.IExpressionContext {
+	qi := new(grammar.QualifiedIdentifierContext)
+	grammar.InitEmptyQualifiedIdentifierContext(qi)
+	for i, n := range names {
+		if i > 0 {
+			verifAdd(qi, verifTok("."))
+		}
+		verifAdd(qi, verifIdentifier(n))
+	}
+	ts := new(grammar.TypeSpecifierContext)
+	grammar.InitEmptyTypeSpecifierContext(ts)
+	verifAdd(ts, qi)
+	e := new(grammar.TypeExpressionContext)
+	grammar.InitEmptyExpressionContext(&e.ExpressionContext)
+	verifAdd(e, x, verifTok(op), ts)
+	return e
+}
+
+// verifQuantityLit is NUMBER unit, the unit a quoted UCUM string ('mg') or a calendar keyword (days).
+func verifQuantityLit(number, unit string) grammar.IExpressionContext {
+	u := new(grammar.UnitContext)
+	grammar.InitEmptyUnitContext(u)
+	if len(unit) > 0 && unit[0] == '\'' {
+		verifAdd(u, verifTokT(grammar.VerifTokSTRING, unit))
+	} else {
+		// dateTimePrecision / pluralDateTimePrecision: one keyword token under its own rule node
+		if unit[len(unit)-1] == 's' {
+			k := new(grammar.PluralDateTimePrecisionContext)
+			grammar.InitEmptyPluralDateTimePrecisionContext(k)
+			verifAdd(k, verifTok(unit))
+			verifAdd(u, k)
+		} else {
+			k := new(grammar.DateTimePrecisionContext)
+			grammar.InitEmptyDateTimePrecisionContext(k)
+			verifAdd(k, verifTok(unit))
+			verifAdd(u, k)
+		}
+	}
+	q := new(grammar.QuantityContext)
+	grammar.InitEmptyQuantityContext(q)
+	verifAdd(q, verifTokT(grammar.VerifTokNUMBER, number), u)
+	lit := new(grammar.QuantityLiteralContext)
+	grammar.InitEmptyLiteralContext(&lit.LiteralContext)
+	verifAdd(lit, q)
+	return verifLiteralExpr(lit)
+}
+
+// verifExternalConstant is %name, %`name` or %'name' (externalConstant : '%' ( identifier | STRING )).
+func verifExternalConstant(written string) grammar.IExpressionContext {
+	ec := new(grammar.ExternalConstantContext)
+	grammar.InitEmptyExternalConstantContext(ec)
+	verifAdd(ec, verifTok("%"))
+	if len(written) > 0 && written[0] == '\'' {
+		verifAdd(ec, verifTokT(grammar.VerifTokSTRING, written))
+	} else {
+		verifAdd(ec, verifIdentifier(written))
+	}
+	term := new(grammar.ExternalConstantTermContext)
+	grammar.InitEmptyTermContext(&term.TermContext)
+	verifAdd(term, ec)
+	return verifTermExpr(term)
+}
+
+// verifMember is a bare member name as an expression (term : invocation : identifier); verifDotMember is x.name.
+func verifMember(name string) grammar.IExpressionContext {
+	inv := new(grammar.MemberInvocationContext)
+	grammar.InitEmptyInvocationContext(&inv.InvocationContext)
+	verifAdd(inv, verifIdentifier(name))
+	term := new(grammar.InvocationTermContext)
+	grammar.InitEmptyTermContext(&term.TermContext)
+	verifAdd(term, inv)
+	return verifTermExpr(term)
+}
+
+func verifDotMember(x grammar.IExpressionContext, name string) grammar.IExpressionContext {
+	inv := new(grammar.MemberInvocationContext)
+	grammar.InitEmptyInvocationContext(&inv.InvocationContext)
+	verifAdd(inv, verifIdentifier(name))
+	e := new(grammar.InvocationExpressionContext)
+	grammar.InitEmptyExpressionContext(&e.ExpressionContext)
+	verifAdd(e, x, verifTok("."), inv)
+	return e
+}
+
+func verifDateLit(text string) grammar.IExpressionContext {
+	lit := new(grammar.DateLiteralContext)
+	grammar.InitEmptyLiteralContext(&lit.LiteralContext)
+	verifAdd(lit, verifTokT(grammar.VerifTokDATE, text))
+	return verifLiteralExpr(lit)
+}
+
+func verifDateTimeLit(text string) grammar.IExpressionContext {
+	lit := new(grammar.DateTimeLiteralContext)
+	grammar.InitEmptyLiteralContext(&lit.LiteralContext)
+	verifAdd(lit, verifTokT(grammar.VerifTokDATETIME, text))
+	return verifLiteralExpr(lit)
+}
+
+func verifTimeLit(text string) grammar.IExpressionContext {
+	lit := new(grammar.TimeLiteralContext)
+	grammar.InitEmptyLiteralContext(&lit.LiteralContext)
+	verifAdd(lit, verifTokT(grammar.VerifTokTIME, text))
+	return verifLiteralExpr(lit)
+}
